@@ -23,16 +23,59 @@ def dims_menu(maxlen):
     return [t for n in range(maxlen + 1) for t in itertools.product((2, 3), repeat=n)]
 
 
-def T(dom, cod, tag, seed=0):
+KINDS = ("gauss", "int", "object", "symbolic")
+XV = 2 + 3j     # value given to the symbol when a symbolic array is read back (exact arithmetic)
+
+
+def raw_of(dom, cod, tag, seed=0, kind="gauss"):
+    """The reference matrix (complex numbers) of the generic tensor of that shape and entry kind."""
+    raw = ref.generic_array("%s:%s:%s" % (tag, dom, cod), ref.prod(dom), ref.prod(cod), seed)
+    if kind == "int":
+        return raw.real.astype(complex)
+    if kind == "symbolic":       # entry (i, j) is multiplied by the symbol when i + j is odd
+        mask = np.fromfunction(lambda i, j: (i + j) % 2, raw.shape)
+        return np.where(mask == 1, raw * XV, raw)
+    return raw
+
+
+def T(dom, cod, tag, seed=0, kind="gauss"):
+    """Generic tensor; kind = how the entries are stored: complex dtype, integer dtype, object
+    dtype holding Python complex numbers, object dtype holding sympy expressions in a symbol."""
     from discopy.tensor import Tensor, Dim
-    rows, cols = ref.prod(dom), ref.prod(cod)
-    return Tensor(Dim(*dom), Dim(*cod), ref.generic_array("%s:%s:%s" % (tag, dom, cod), rows, cols, seed))
+    raw = ref.generic_array("%s:%s:%s" % (tag, dom, cod), ref.prod(dom), ref.prod(cod), seed)
+    if kind == "int":
+        data = raw.real.astype(int)
+    elif kind == "object":
+        data = np.array([complex(v) for v in raw.flatten()], dtype=object).reshape(raw.shape)
+    elif kind == "symbolic":
+        import sympy
+        x = sympy.Symbol("x")
+        flat = []
+        for (i, j), v in np.ndenumerate(raw):
+            e = sympy.Integer(int(v.real)) + sympy.I * sympy.Integer(int(v.imag))
+            flat.append(e * x if (i + j) % 2 else e)
+        data = np.array(flat, dtype=object).reshape(raw.shape)
+    else:
+        data = raw
+    return Tensor(Dim(*dom), Dim(*cod), data)
 
 
 def M(t):
-    """Matrix of a Tensor: flattened dom x flattened cod."""
+    """Matrix of a Tensor: flattened dom x flattened cod (symbols read at x = XV)."""
     d = [o.name for o in t.dom.objects]
-    return np.asarray(t.array).reshape(ref.prod(d), -1)
+    arr = np.asarray(t.array)
+    if arr.dtype == object:
+        import sympy
+        x = sympy.Symbol("x")
+        vals = []
+        for v in arr.flatten():
+            if isinstance(v, (int, float, complex)):
+                vals.append(complex(v))
+                continue
+            e = sympy.expand(sympy.sympify(v).subs(x, sympy.Integer(2) + 3 * sympy.I))   # exact Gaussian integer
+            vals.append(complex(int(sympy.re(e)), int(sympy.im(e))))
+        arr = np.array(vals, dtype=complex)
+    return arr.reshape(ref.prod(d), -1)
 
 
 def dimsof(ty):
@@ -62,8 +105,9 @@ def check_single(params):
 
     def bad(kind, msg):
         out.append((_sig(kind, params), "Tensor %s -> %s: %s" % (dom, cod, msg)))
-    t = T(dom, cod, "f", seed)
-    raw = ref.generic_array("f:%s:%s" % (dom, cod), ref.prod(dom), ref.prod(cod), seed)
+    kind = params.get("kind", "gauss")
+    t = T(dom, cod, "f", seed, kind)
+    raw = raw_of(dom, cod, "f", seed, kind)
     if dimsof(t.dom) != dom or dimsof(t.cod) != cod or t.array.shape != (dom + cod or (1,)):
         bad("shape", "dom/cod/shape = %s %s %s" % (t.dom, t.cod, t.array.shape))
         return out
@@ -115,7 +159,8 @@ def check_pair(params):
 
     def bad(kind, msg):
         out.append((_sig(kind, params), "f: %s -> %s, g: %s -> %s: %s" % (a, b, c, d, msg)))
-    f, g = T(a, b, "f", seed), T(c, d, "g", seed)
+    kind = params.get("kind", "gauss")
+    f, g = T(a, b, "f", seed, kind), T(c, d, "g", seed, kind)
     Mf, Mg = M(f), M(g)
     fg = f @ g
     if dimsof(fg.dom) != a + c or dimsof(fg.cod) != b + d or not np.array_equal(M(fg), np.kron(Mf, Mg)):
@@ -137,7 +182,7 @@ def check_pair(params):
     if not np.array_equal(M(lhs), M(rhs)) or dimsof(lhs.cod) != dimsof(rhs.cod):
         bad("swap-natural", "f @ g >> swap != swap >> g @ f")
     # interchange law with a second layer (h: b -> a, k: d -> c)
-    h, k = T(b, a, "h", seed), T(d, c, "k", seed)
+    h, k = T(b, a, "h", seed, kind), T(d, c, "k", seed, kind)
     if not np.array_equal(M((f @ g) >> (h @ k)), M((f >> h) @ (g >> k))):
         bad("interchange", "(f @ g) >> (h @ k) != (f >> h) @ (g >> k)")
     return out
@@ -176,6 +221,13 @@ def run(ctx):
     menu3, menup = dims_menu(single_len), dims_menu(pair_len)
     items = [("single", dict(dom=list(a), cod=list(b), seed=ctx.seed)) for a in menu3 for b in menu3
              if ref.prod(a) * ref.prod(b) <= 27 * 27]
+    # how the entries are stored (integer / object / symbolic arrays): all shapes up to length 2
+    for kind in KINDS[1:]:
+        menu2 = dims_menu(2)
+        items += [("single", dict(dom=list(a), cod=list(b), seed=ctx.seed, kind=kind)) for a in menu2 for b in menu2]
+        for a, b, c, d in itertools.product(dims_menu(1), repeat=4):
+            items.append(("pair", dict(a=list(a), b=list(b), c=list(c), d=list(d), seed=ctx.seed, kind=kind)))
+    ctx.bounds["entry_kinds"] = list(KINDS)
     for a, b, c, d in itertools.product(menup, repeat=4):
         if ref.prod(a + c) * ref.prod(b + d) > 81 * 81:
             continue
